@@ -9,6 +9,7 @@ import (
 	"os"
 	"os/exec"
 	"path/filepath"
+	"strings"
 	"time"
 
 	"verif/engine/report"
@@ -33,6 +34,8 @@ func Run(prop, level string, parts []string) {
 	violations := 0
 	exhaustive := true
 	var samples []any
+	var rules []string
+	knownSeen := []any{}
 	for _, p := range parts {
 		evd := filepath.Join(work, "parts", prop+"-"+p)
 		os.RemoveAll(evd)
@@ -78,6 +81,16 @@ func Run(prop, level string, parts []string) {
 				if l, ok := v.([]any); ok {
 					samples = append(samples, l...)
 				}
+			case "rule":
+				if t, ok := v.(string); ok {
+					rules = append(rules, "["+p+"] "+t)
+				}
+				part[k] = v
+			case "known_findings_seen":
+				if l, ok := v.([]any); ok {
+					knownSeen = append(knownSeen, l...)
+				}
+				part[k] = v
 			case "exhaustive":
 				if b, ok := v.(bool); ok && !b {
 					exhaustive = false
@@ -99,6 +112,8 @@ func Run(prop, level string, parts []string) {
 		os.Exit(worst)
 	}
 	cov["samples"] = samples
+	cov["rule"] = strings.Join(rules, " ")
+	cov["known_findings_seen"] = knownSeen
 	cov["exhaustive"] = exhaustive
 	merged["coverage"] = cov
 	merged["assumptions"] = assumptions
